@@ -199,11 +199,18 @@ class Roles:
         c = ev.node
         if not isinstance(c, ast.Call):
             return None
-        if any(n.endswith('.run_in_executor') for n in ext_names(ev)):
+        if any(n.endswith('.run_in_executor') for n in ext_names(ev)) or (
+                isinstance(c.func, ast.Attribute) and c.func.attr == 'run_in_executor'
+                and all(t[0] == 'unknown' for t in ev.info.get('targets', ()))):      # the loop came through an un-annotated parameter
             for a in c.args[1:]:
                 t = sym.term(self.p, a, ev.inst)
                 if self._mentions_run_method(t):
                     return 'executor'
+            return None
+        if any(n.endswith('.wrap_future') for n in ext_names(ev)) and c.args:
+            # asyncio.wrap_future(<pool>.submit(<body>, ...)): the same hand-over spelled with the pool's own future
+            if self._mentions_run_method(sym.term(self.p, c.args[0], ev.inst)):
+                return 'executor'
             return None
         for t in ev.info.get('targets', ()):
             # a call through the node protocol (an annotated node object): user node code
@@ -221,6 +228,9 @@ class Roles:
             bt = sym.term(self.p, c.func.value, ev.inst)
             if self._mentions_instance(bt):
                 return 'default'
+        # the bound method taken first, called later: `get_default = get_instance(node).get_default; get_default(**kwargs)`
+        if isinstance(ft, tuple) and ft and ft[0] == 'attr' and ft[2] == 'get_default' and self._mentions_instance(ft[1]):
+            return 'default'
         # get_instance(cls): cls(*args) / default_factory(*args)
         if ev.inst.unit.name == 'get_instance' or self._is_param_ctor(ev):
             return 'ctor'
